@@ -41,6 +41,7 @@ func main() {
 	replayDir := flag.String("replaydir", "/verif/replay", "where violation records go")
 	findingsFile := flag.String("findings", "/verif/known_findings.json", "known findings")
 	sweep := flag.Bool("sweep", false, "finding aid, not a check: run every function WITHOUT a contract under a synthesised safety-only contract (non-nil pointer parameters, assigns everything) and list the bounds / division / conversion obligations that do not discharge")
+	crosscheck := flag.Bool("crosscheck", false, "soundness canary, not a check: run every function under contract that the replay can drive on its candidate inputs and evaluate all its ensures clauses on the observed results; a clause that was proved but is false on a real execution means the engine or a trusted contract is wrong")
 	noReplay := flag.Bool("noreplay", false, "do not look for concrete failing inputs of failed obligations")
 	list := flag.Bool("list", false, "list functions under contract and their tags")
 	timeout := flag.Int("timeout", 0, "per-obligation timeout in seconds (default 10 quick / 60 thorough)")
@@ -93,6 +94,9 @@ func main() {
 	if *sweep {
 		runSweep(p, opt)
 		return
+	}
+	if *crosscheck {
+		os.Exit(runCrossCheck(p, *repo, dir, *prop))
 	}
 	// select functions
 	var fns []string
@@ -491,4 +495,41 @@ func runSweep(p *vc.Program, opt vc.Options) {
 		}
 	}
 	fmt.Printf("SWEEP: %d functions without contract, %d indexing/division obligations, %d not discharged without preconditions\n", len(names), total, bad)
+}
+
+// runCrossCheck: every ensures clause that the verifier proves must also hold
+// on real executions. For each function under contract (of the given property,
+// or all) that the replay harness can drive, the real function is run on the
+// replay's candidate inputs and all ensures clauses are evaluated on what it
+// returned. A falsified clause, or a panic on an input satisfying the
+// requires clauses, is a fault of the engine or of a trusted contract.
+func runCrossCheck(p *vc.Program, repo, work, prop string) int {
+	names := p.FunctionsUnderContract()
+	driven, bad, evals := 0, 0, 0
+	for _, n := range names {
+		cs := p.Contract[n]
+		if prop != "" && prop != "all" && !hasTag(cs.Tags, prop) {
+			continue
+		}
+		if len(cs.Ensures) == 0 || p.Funcs[n] == nil {
+			continue
+		}
+		oc := replay.Try(p, repo, filepath.Join(work, "crosscheck"), vc.OblResult{Oblig: vc.Oblig{Fn: n, Name: n + "/crosscheck", Kind: "crosscheck"}})
+		if oc.Tried == 0 {
+			continue
+		}
+		driven++
+		if oc.Found {
+			bad++
+			fmt.Printf("CROSSCHECK FAULT %s: input %v gives %s\n", n, oc.Input, oc.Observed)
+		} else {
+			fmt.Printf("crosscheck ok   %s: %d executions (%d outside requires), %d clause evaluations held, %d inconclusive\n", n, oc.Tried, oc.Skipped, oc.ClauseEvals, oc.ClauseSkips)
+			evals += oc.ClauseEvals
+		}
+	}
+	fmt.Printf("crosscheck: %d functions driven, %d clause evaluations on real executions all held, %d functions with a proved clause that is false on a real execution\n", driven, evals, bad)
+	if bad > 0 {
+		return 2
+	}
+	return 0
 }
